@@ -134,17 +134,29 @@ func (d *Document) ArgumentsAreEqual(left, right int) bool {
 		d.ValuesAreEqual(d.ArgumentValue(left), d.ArgumentValue(right))
 }
 
+// ArgumentSetsAreEquals reports whether two argument lists hold the same arguments.
+// Arguments are an unordered set (their names are unique), so f(a: 1, b: 2) and f(b: 2, a: 1)
+// are equal: the partner of an argument is looked up by name, not by position.
 func (d *Document) ArgumentSetsAreEquals(left, right []int) bool {
 	if len(left) != len(right) {
 		return false
 	}
-	for i := range left {
-		leftArgument, rightArgument := left[i], right[i]
-		if !d.ArgumentsAreEqual(leftArgument, rightArgument) {
+	for _, leftArgument := range left {
+		rightArgument, ok := d.argumentByName(right, d.ArgumentNameBytes(leftArgument))
+		if !ok || !d.ValuesAreEqual(d.ArgumentValue(leftArgument), d.ArgumentValue(rightArgument)) {
 			return false
 		}
 	}
 	return true
+}
+
+func (d *Document) argumentByName(refs []int, name ByteSlice) (int, bool) {
+	for _, ref := range refs {
+		if bytes.Equal(d.ArgumentNameBytes(ref), name) {
+			return ref, true
+		}
+	}
+	return InvalidRef, false
 }
 
 func (d *Document) ArgumentsBefore(ancestor Node, argument int) []int {
